@@ -1215,6 +1215,7 @@ package sarama
 //@   callsite append: requires[rebased_offset_v1] msg.Msg.Version >= 1 && msgBlock.Msg.Set != nil ==> offset == msg.Offset + msgBlock.Offset - msgBlock.Msg.Set.Messages[len(msgBlock.Msg.Set.Messages)-1].Offset
 //@   callsite append: requires[single_message_v1] msg.Msg.Version >= 1 && msgBlock.Msg.Set == nil ==> offset == msgBlock.Offset && msg == msgBlock
 //@   callsite append: requires[not_before_start] offset >= child.offset
+//@   callsite append: requires[timestamp_of_the_message] timestamp == ite(msg.Msg.Version >= 1 && msg.Msg.LogAppendTime, msgBlock.Msg.Timestamp, msg.Msg.Timestamp)
 //@   requires 0 <= child.offset && child.offset < 4611686018427387904
 //@   requires forall k :: 0 <= k && k < len(msgSet.Messages) ==> msgSet.Messages[k] != nil && msgSet.Messages[k].Msg != nil && 0 <= msgSet.Messages[k].Offset && msgSet.Messages[k].Offset < 4611686018427387904
 //@   requires forall k, q :: 0 <= k && k < len(msgSet.Messages) && msgSet.Messages[k].Msg.Set != nil && 0 <= q && q < len(msgSet.Messages[k].Msg.Set.Messages) ==> msgSet.Messages[k].Msg.Set.Messages[q] != nil && msgSet.Messages[k].Msg.Set.Messages[q].Msg != nil && 0 <= msgSet.Messages[k].Msg.Set.Messages[q].Offset && msgSet.Messages[k].Msg.Set.Messages[q].Offset < 4611686018427387904
@@ -1241,10 +1242,16 @@ package sarama
 
 // parseResponse (C11): what is appended to the delivered messages. append#0 is the legacy-set append,
 // append#1 the record-batch append.
+//@ func (b *RecordBatch) LastOffset() pure
 //@ func (child *partitionConsumer) parseResponse(response) props C11 C03
 //@   returns msgs, err
 //@   per_return
 //@   requires 0 <= child.offset && child.offset < 4611686018427387904
+// (C11) before a batch is examined, every aborted transaction that begins at or before the batch's last offset has
+// been moved from the pending list (sorted by first offset) into the set of aborted producers - for control batches too
+//@   loopname activate: range abortedTransactions
+//@   loop activate: invariant[pending_is_a_suffix] len(abortedTransactions) == len($s) - $i && forall k :: 0 <= k && k < len(abortedTransactions) ==> abortedTransactions[k] == $s[$i + k]
+//@   callsite partitionConsumer.parseRecords: requires[aborted_index_consumed_up_to_batch @C11] len(abortedTransactions) == 0 || abortedTransactions[0].FirstOffset > wrap64(records.RecordBatch.FirstOffset + records.RecordBatch.LastOffsetDelta)
 //@   callsite append#1: requires[no_control] !isControl
 //@   callsite append#1: requires[committed_only] child.conf.Consumer.IsolationLevel == ReadCommitted && records.RecordBatch.IsTransactional ==> !haskey(abortedProducerIDs, records.RecordBatch.ProducerID)
 //@   ensures[strictly_increasing @C03] err == nil ==> forall a, b :: 0 <= a && a < b && b < len(msgs) ==> msgs[a].Offset < msgs[b].Offset
@@ -1387,6 +1394,7 @@ package sarama
 //@   ensures[sent_swept] sent.swept == old(sent.swept) + 1
 //@   ensures[buffer_swept] err == nil || dyntype(err) != typeid(PacketEncodingError) ==> forall ps *produceSet :: ps == old(bp.buffer) ==> ps.swept == old(ps.swept) + 1
 //@   ensures[buffer_kept_on_encoding_error] err != nil && dyntype(err) == typeid(PacketEncodingError) ==> bp.buffer == old(bp.buffer) && bp.buffer.swept == old(bp.buffer.swept)
+//@   ensures[swept_buffer_is_replaced] err == nil || dyntype(err) != typeid(PacketEncodingError) ==> bp.buffer != nil && bp.buffer != old(bp.buffer) && bp.buffer != sent
 
 // connection management touches no message, produce set or ghost accounting (A-own)
 //@ func (b *Broker) Close() trusted
@@ -2021,19 +2029,19 @@ package sarama
 // the flag getters of a typed Records value read the flags of the decoded set / batch and change nothing
 //@ func (r *Records) isPartial() props C10
 //@   returns p, err
-//@   requires r.recordsType == legacyRecords || r.recordsType == defaultRecords
-//@   ensures[reads_flag] err == nil && (r.recordsType == legacyRecords && r.MsgSet != nil ==> p == r.MsgSet.PartialTrailingMessage) && (r.recordsType == defaultRecords && r.RecordBatch != nil ==> p == r.RecordBatch.PartialTrailingRecord)
-//@   modifies nothing
+//@   ensures[reads_flag] (old(r.recordsType) == legacyRecords && r.MsgSet != nil ==> err == nil && p == r.MsgSet.PartialTrailingMessage) && (old(r.recordsType) == defaultRecords && r.RecordBatch != nil ==> err == nil && p == r.RecordBatch.PartialTrailingRecord)
+//@   ensures[type_kept] old(r.recordsType) != unknownRecords ==> r.recordsType == old(r.recordsType)
+//@   modifies r.recordsType
 //@ func (r *Records) isOverflow() props C10
 //@   returns o, err
-//@   requires r.recordsType == legacyRecords || r.recordsType == defaultRecords
-//@   ensures[reads_flag] err == nil && (r.recordsType == legacyRecords && r.MsgSet != nil ==> o == r.MsgSet.OverflowMessage) && (r.recordsType == defaultRecords ==> !o)
-//@   modifies nothing
+//@   ensures[reads_flag] (old(r.recordsType) == legacyRecords && r.MsgSet != nil ==> err == nil && o == r.MsgSet.OverflowMessage) && (old(r.recordsType) == defaultRecords ==> err == nil && !o)
+//@   ensures[type_kept] old(r.recordsType) != unknownRecords ==> r.recordsType == old(r.recordsType)
+//@   modifies r.recordsType
 //@ func (r *Records) numRecords() props C10
 //@   returns n, err
-//@   requires r.recordsType == legacyRecords || r.recordsType == defaultRecords
 //@   ensures n >= 0
-//@   modifies nothing
+//@   ensures[type_kept] old(r.recordsType) != unknownRecords ==> r.recordsType == old(r.recordsType)
+//@   modifies r.recordsType
 
 // FetchResponseBlock.decode: the record loop terminates: every iteration that continues has consumed bytes of the
 // records sub-decoder.
@@ -2131,8 +2139,10 @@ package sarama
 //@   loop chunk: invariant[grouped_by_leader] forall b *Broker, k int :: haskey(partitionPerBroker, b) && 0 <= k && k < len(partitionPerBroker[b]) ==> haskey(partitionOffsets, partitionPerBroker[b][k]) && leaderOf(topic, partitionPerBroker[b][k]) == b
 //@   callsite Broker.DeleteRecords: requires[sent_to_the_leader_of_every_partition_named] $request != nil && haskey($request.Topics, topic) && $request.Topics[topic] != nil && forall p int32 :: haskey($request.Topics[topic].PartitionOffsets, p) ==> leaderOf(topic, p) == $recv && $request.Topics[topic].PartitionOffsets[p] == partitionOffsets[p]
 //@   callsite Broker.DeleteRecords: requires[whole_chunk_sent] forall k :: 0 <= k && k < len(partitions) ==> haskey($request.Topics[topic].PartitionOffsets, partitions[k])
-//@   loop brokers: iter_ensures[failed_request_counts] true
+//@   loop brokers: iter_ensures[failed_or_incomplete_answer_counts] (err != nil || (rsp != nil && !haskey(rsp.Topics, topic))) ==> len(errs) > it(len(errs))
+//@   loop brokers: iter_ensures[errors_only_accumulate] len(errs) >= it(len(errs))
 //@   loop verdicts: invariant[partition_error_counts] forall p int32 :: $visited[p] && deleteRecordsResponseTopic.Partitions[p].Err != ErrNoError ==> len(errs) > 0
+//@   loop verdicts: invariant[errors_only_accumulate] len(errs) >= it(len(errs))
 //@   ensures[no_error_means_nothing_failed] err == nil ==> len(errs) == 0
 //@   nosafety
 
